@@ -51,9 +51,9 @@ CLAIMED = {
    ref='§5 C02', technique='Lean 4 proof over a byte-exact model (Expat as parameter) + differential run under sanitizers + 8 MiB stack ladder',
    note=TB + ' Expat (well-formedness, entity expansion, event order) is assumed, and recorded for every input. Known finding: nesting deeper than ~60k levels exhausts the 8 MiB stack.'),
  'C03': dict(
-   text='Round-trip theorems composed from the encoder theorems (C06) and parse_ser (C04) over the conversion models (Props/C03.lean, growing, _partial where the composition is not complete). Tie: correspondence of both conversions on every step; implementation-side oracle: Expat re-reads the round-tripped XML and tools/docmp.py compares nesting, names (alias classes), attributes, character data under exactly the documented normalisations; second round trip byte-identical.',
-   ref='§5 C03', technique='Lean 4 proof (composition) + differential round trips with an independent document comparison',
-   note=TB + ' Several genuine data-changing corner cases are recorded as known findings (see known_findings.json: attributes dropped for languages without attribute table, CDATA in typed elements, invalid typed text accepted, …); six defects found by this check were fixed.'),
+   text='Round-trip theorems over the conversion models (Props/C03.lean): build_reconstructs (the tree builder over the events of any grammar document yields the tree read off that document), rt_preserves_partial (XML tree -> WBXML -> tree gives the source tree in normal form: same nesting, names, attributes with values in order, character data after the documented normalisation), norm_idempotent (+ witnesses that its hypotheses are needed), and the second round trip with Expat as the single stated assumption ReadsBack: rt2_is_rt1_partial (same event view, same tree up to canon, and the printed XML of the second trip equals the first octet by octet). _partial marks exactly: names identified up to token-row/literal (canon), no <Data> elements / CDATA / embedded documents / typed content / ActiveSync alias in the first trip, languages without namespace table in the second. Negative witnesses: WBXML octets of first and second trip may differ (known finding empty-element-form). Tie: correspondence of both conversions on every step; implementation-side oracle: Expat re-reads the round-tripped XML and tools/docmp.py compares nesting, names (alias classes), attributes, character data under exactly the documented normalisations; second round trip byte-identical.',
+   ref='§5 C03, §0', technique='Lean 4 proof (composition of encoder, parser and builder theorems; Expat as stated assumption) + differential round trips with an independent document comparison',
+   note=TB + ' Genuine data-changing corner cases are recorded as known findings (known_findings.json: attributes dropped for languages without attribute table, CDATA in typed elements, invalid typed text accepted, embedded documents without type label, ...); eight defects found by this check were fixed.'),
  'C05': dict(
    text='Theorems over the XML printer model: escaped text never contains markup characters, unescape(escape s) = s in every mode, CR never literal, canonical mode escapes CR/LF/TAB, CDATA text cannot terminate its section, header carries the DOCTYPE (Props/C05.lean, growing). Tie: W2X correspondence (byte-exact) + oracle: Expat (plain, non-namespace) accepts the output, DOCTYPE matches the language, events read back equal the event parser\'s (exactly in canonical mode).',
    ref='§5 C05', technique='Lean 4 proof over the printer model + independent XML parser as oracle',
